@@ -8,7 +8,7 @@ LEVEL = 'exploration'
 B = [0, 1, 2, 0x7F, 0x80, 0xFF, 0x100, 0xFFFF, 0x10000, 2**31 - 1, 2**31, 2**32 - 2, 2**32 - 1]
 RULE = ('list: every sequence of 0..3 entries from a pool of boundary entries (names a, 255 x b, \\xff\\x00/, UTF-8; mode/size/mtime in {0,1,2^31,2^32-1}) x ALL sets '
         'of <=k cut positions of the DENT/DONE reply stream (short-name listings) or <=1 (all listings) + all-1-byte + 300-entry listings x WRTE sizes; stat: all '
-        '13^3 boundary triples x every cut position of the 16-byte reply, <=2 cuts on a subset; both twins; oracle: return value == model filesystem, '
+        '13^3 boundary triples x every cut position of the 16-byte reply, <=2 cuts on a subset; both twins; the same with the reply WRTEs overtaking the OKAY of the request (legal per protocol.txt); oracle: return value == model filesystem, '
         'stream closed, all device packets consumed; non-trivial = at least one entry / any stat; distinct = distinct (listing or triple, cut set, twin)')
 ASSUMPTIONS = ['adbsim sync service follows SYNC.TXT', 'field values come from a 13-value boundary alphabet, names from a 5-name pool']
 
@@ -35,7 +35,7 @@ def run_list(params, ch):
     else:
         cuts = oracle.choose_cuts(ch, blob_len, params['kmax'])
         cut = {'at': cuts}
-    cfg = {'fs': {'dirs': {b'/d': ents}}, 'cut': cut}
+    cfg = {'fs': {'dirs': {b'/d': ents}}, 'cut': cut, 'okay_order': params.get('okay')}
     s = Session(ch, cfg, twin=params['twin'])
     try:
         s.op(('connect',))
@@ -65,7 +65,7 @@ def explore_digest(x):
 def run_stat(params, ch):
     m, z, t = params['triple']
     cuts = oracle.choose_cuts(ch, 16, params['kmax'])
-    cfg = {'fs': {'stats': {b'/s': (m, z, t)}}, 'cut': {'at': cuts}}
+    cfg = {'fs': {'stats': {b'/s': (m, z, t)}}, 'cut': {'at': cuts}, 'okay_order': params.get('okay')}
     s = Session(ch, cfg, twin=params['twin'])
     try:
         s.op(('connect',))
@@ -98,6 +98,11 @@ def parts(tier):
     if tier == 'quick':
         sc += [{'triple': (a, b, c), 'twin': 'async', 'kmax': 1} for a in B for b in B[::4] for c in B[::4]]
     out.append(Part('stat-triples-x-cut', sc, run_stat, {'*': None}, what='13^3 boundary triples x every cut position of the reply', bound='<=1 cut'))
+    sc = [{'pool': 'short', 'n': n, 'idx': i, 'twin': t, 'kmax': 1, 'okay': 'late'} for n in range(0, 3) for i in range(len(SHORT) ** n) for t in twins]
+    sc += [{'pool': 'full', 'n': 2, 'idx': i, 'twin': t, 'size': z, 'okay': 'late'} for i in range(0, 36, 5) for t in twins for z in (1, 7, 64)]
+    out.append(Part('list-reply-before-okay', sc, run_list, {'*': None}, what='the device\'s reply WRTEs overtake the OKAY that acknowledges the request', bound='%d listings x every single cut' % len(sc)))
+    sc = [{'triple': (a, b, c), 'twin': t, 'kmax': 1, 'okay': 'late'} for a in B[::3] for b in B[::3] for c in B[::3] for t in twins]
+    out.append(Part('stat-reply-before-okay', sc, run_stat, {'*': None}, what='stat reply overtakes the OKAY of the request', bound='%d triples x every single cut' % len(sc)))
     sc = [{'triple': (a, b, c), 'twin': t, 'kmax': k} for (a, b, c) in ((0, 0, 0), (2**32 - 1, 2**31, 1), (0o100644, 0x10000, 0xFF)) for t in twins]
     out.append(Part('stat-x-cuts', sc, run_stat, {'*': None}, split=1, what='selected triples, all cut sets', bound='<=%d cuts' % k))
     return out
